@@ -118,6 +118,9 @@ def check_one(g, res, rid, stats):
         bad.extend(accessor_dimensions(fns, nf["layout"]))
     else:
         bad.append(("parser-definition-impl", "impl ParserDefinition not found"))
+    # constructor arguments of the runtime parser (positional, same-typed bools)
+    bad.extend(constructor_args(g, t))
+    cells += 1
     # constants
     exp_consts = {"TERMINAL_COUNT": len(t["terminals"]), "STATE_COUNT": len(t["states"])}
     if nf["layout"] == "arrays":
@@ -179,6 +182,52 @@ def gen_walk(tokens):
         yield t
         if t[0] == "g":
             yield from gen_walk(t[2])
+
+
+def find_new_calls(tokens, out):
+    for i, t in enumerate(tokens):
+        if t[0] == "g":
+            find_new_calls(t[2], out)
+        if is_i(t, "new") and i + 1 < len(tokens) and is_g(tokens[i + 1], "(") and i >= 2 and is_p(tokens[i - 1], "::") and tokens[i - 2][0] == "i":
+            out.append((tokens[i - 2][1], [flat(a).replace(" ", "") for a in split(tokens[i + 1][2])]))
+
+
+def constructor_args(g, t):
+    """LRParser::new(def, state, partial_parse, has_layout, lexer, builder) / GlrParser::new(def, partial_parse, has_layout, lexer) /
+    StringLexer::new(skip_ws, recognizers): the literal arguments equal the settings in force."""
+    bad = []
+    s = g.settings
+    calls = []
+    for it in g.items:
+        if it["kind"] == "impl":
+            for f in it["items"]:
+                if f.get("ident") == "new" and "body" in f:
+                    find_new_calls(f["body"], calls)
+    b = lambda v: "true" if v else "false"
+    exp_partial, exp_layout = b(s["partial_parse"]), b(t["has_layout"])
+    exp_skip = b(s["skip_ws"] and not t["has_layout"])
+    seen = False
+    for name, args in calls:
+        if name == "LRParser" and len(args) >= 4:
+            seen = True
+            if s["parser_algo"] != "LR":
+                bad.append(("parser-ctor", "LRParser::new in a parser generated for %s" % s["parser_algo"]))
+            if (args[2], args[3]) != (exp_partial, exp_layout):
+                bad.append(("parser-ctor-args", "LRParser::new(.., partial_parse = %s, has_layout = %s, ..), settings say partial_parse = %s, "
+                            "grammar has_layout = %s" % (args[2], args[3], exp_partial, exp_layout)))
+        if name == "GlrParser" and len(args) >= 3:
+            seen = True
+            if s["parser_algo"] != "GLR":
+                bad.append(("parser-ctor", "GlrParser::new in a parser generated for %s" % s["parser_algo"]))
+            if (args[1], args[2]) != (exp_partial, exp_layout):
+                bad.append(("parser-ctor-args", "GlrParser::new(.., partial_parse = %s, has_layout = %s, ..), settings say partial_parse = %s, "
+                            "grammar has_layout = %s" % (args[1], args[2], exp_partial, exp_layout)))
+        if name == "StringLexer" and args:
+            if args[0] != exp_skip:
+                bad.append(("lexer-ctor-args", "StringLexer::new(skip_ws = %s, ..), expected settings.skip_ws && !has_layout = %s" % (args[0], exp_skip)))
+    if not seen:
+        bad.append(("parser-ctor-missing", "no LRParser::new / GlrParser::new call found in the generated parser"))
+    return bad
 
 
 def accessor_dimensions(fns, layout):
@@ -257,6 +306,20 @@ def run(ctx, res):
             nf = check_one(g, res, rid, stats)
             if nf is not None and "actions" in nf:
                 nfs.setdefault(key_of(g), {})[nf["layout"]] = (nf, g)
+    # witness corpus (and, in the thorough tier, every grammar of the repository x a fixed configuration list)
+    from . import witness
+    wsets = ["witness"] + (["matrix"] if ctx.tier == "thorough" else [])
+    wn = 0
+    for ws_name in wsets:
+        ws, build = witness.load(ctx, ws_name)
+        for e, g in ws:
+            if g is None or (ws_name == "witness" and "C08" not in e.get("serves", [])):
+                continue
+            g.name = "%s:%s[%s]" % (ws_name, e["witness"], " ".join(e["config"]))
+            programs += 1
+            wn += 1
+            check_one(g, res, rid, stats)
+    res.extra["witness_programs"] = wn
     res.rule("C08-R5", "both layout builds type-check (rustc)", floor=0)
     res.ok("C08-R5", "builds", None, "gen-functions and gen-arrays cargo check --workspace --all-targets succeeded")
     pairs = 0
